@@ -18,6 +18,7 @@ def c1(ctx):
     serial.writer_item_loop(ctx, serial.BASE_SERIALIZE, notes_exempt=False)
     serial.writer_item_loop(ctx, serial.SSCCHART_SERIALIZE, notes_exempt=True)
     serial.ssc_notes_item(ctx)
+    serial.ssc_skip_is_what_is_written_last(ctx)
 
 
 def c2(ctx):
